@@ -5,3 +5,4 @@ import RSVerif.Properties.C05
 #print axioms RS.encode_reads_only_originals
 #print axioms RS.decode_reads_only_received
 #print axioms RS.oneshot_stale_indep
+#print axioms RS.source_global_state
